@@ -19,8 +19,8 @@ RTYPES = ["parent", "parent", "parent", "parent", "parent", "x", "pa"]
 ROOT = {"t": "builtin", "k": "root"}
 
 RULE = ("histories of 6-24 ops over a universe of 3-7 identifiers drawn from types {a, ab} and keys that are prefixes/"
-        "suffixes of one another (1, 10, 21, 1-, >1, 1:2 ...), ~10% of the cases also using keys that contain the "
-        "separator '->' and ~6% malformed ids (empty key/type); ops = define/delete resource, define relationship "
+        "suffixes of one another (1, 10, 21, 1-, >1, 1:2 ...), ~7% with malformed ids (empty key/type), plus a few "
+        "small histories (10 in the quick tier, 5% in the thorough tier) using keys that contain the separator '->'; ops = define/delete resource, define relationship "
         "(single, one-to-many), delete relationship, begin/commit/abort; shapes = random, chains with a closing edge, "
         "diamonds; after every op the raw tables (transaction view and committed view) and parents / children / "
         "parents-then-children / descendants of every identifier are compared. Non-trivial = at least 2 accepted "
@@ -60,12 +60,7 @@ def gen_universe(rng):
         c = rng.choice(core) if rng.random() < 0.6 else rng.choice(pool)
         if c not in u:
             u.append(c)
-    if x < 0.10:
-        for _ in range(rng.choice([1, 1, 2])):
-            c = mkid(rng.choice(TYPES), rng.choice(SEP_KEYS))
-            if c not in u:
-                u[rng.randrange(len(u))] = c
-    elif x < 0.16:
+    if x < 0.07:
         u[rng.randrange(len(u))] = rng.choice([mkid("a", ""), mkid("", "1"), mkid("", "")])
     if rng.random() < 0.15:
         u.append(dict(ROOT))
@@ -124,8 +119,32 @@ def gen_case(rng):
     return {"ids": u, "ops": ops}
 
 
+def gen_sep_case(rng):
+    """small history over 2-3 identifiers, one of which contains the separator (known finding F20)"""
+    base = rng.choice(TYPES), rng.choice(["1", "2", "10"])
+    sk = rng.choice(SEP_KEYS + [base[1] + "->x", base[1] + "->" + base[0] + ":" + base[1]])
+    u = [mkid(*base), mkid(rng.choice(TYPES), sk)]
+    if rng.random() < 0.6:
+        u.append(mkid(rng.choice(TYPES), rng.choice(["2", "21", "10"])))
+        if u[2] in u[:2]:
+            u.pop()
+    ops = [{"op": "defres", "a": i} for i in u]
+    for _ in range(rng.randrange(1, 4)):
+        x = rng.random()
+        if x < 0.7:
+            ops.append({"op": "defrel", "a": rng.choice(u), "b": rng.choice(u), "ty": "parent"})
+        elif x < 0.85:
+            ops.append({"op": "delres", "a": rng.choice(u)})
+        else:
+            ops.append({"op": "delrel", "a": rng.choice(u), "b": rng.choice(u), "ty": "parent"})
+    return {"ids": u, "ops": ops}
+
+
 def gen_cases(rng, tier, n):
-    return [gen_case(rng) for _ in range(n)]
+    # cases that use a separator-containing identifier (known finding F20) are few, small and go last, so
+    # that the first violations the runner minimises are the ones that carry no known-finding tag
+    n_sep = 10 if tier == "quick" else max(10, n // 20)
+    return [gen_case(rng) for _ in range(max(n - n_sep, 1))] + [gen_sep_case(rng) for _ in range(n_sep)]
 
 
 ERR = {"ok": "EOk", "notfound": "ENotFound", "cyclic": "ECyclic", "validation": "EValidation"}
@@ -135,12 +154,30 @@ def c_str(s):
     return cbytes(s.encode("utf-8")) if s else "[]"
 
 
-def c_id(i):
-    return "(Id %s %s)" % (c_str(i["t"]), c_str(i["k"]))
+# the identifier / relationship-type alphabet is predefined once per case file (COQ_EXTRA): case terms
+# then name identifiers (k7) instead of spelling byte lists, which keeps coqc's parsing time low
+ALPHA = [(t, k) for t in TYPES + [""] for k in GOOD_KEYS + SEP_KEYS + [""]] + [("builtin", "root")]
+ALPHA_IX = {tk: n for n, tk in enumerate(ALPHA)}
+RT_IX = {t: n for n, t in enumerate(sorted(set(RTYPES)))}
+COQ_EXTRA = "\n".join(
+    ["Definition k%d : raw_id := (%s, %s)." % (n, c_str(t), c_str(k)) for (t, k), n in ALPHA_IX.items()] +
+    ["Definition t%d : str := %s." % (n, c_str(t)) for t, n in RT_IX.items()] +
+    ["Definition rr (a : raw_id) (t : str) (b : raw_id) : raw_rel := (a, t, b).",
+     "Definition qq (e : err) (l : list raw_id) : raw_q := (e, l)."])
 
 
 def c_raw_id(p):
-    return cpair(c_str(p[0]), c_str(p[1]))
+    n = ALPHA_IX.get((p[0], p[1]))
+    return "k%d" % n if n is not None else cpair(c_str(p[0]), c_str(p[1]))
+
+
+def c_ty(t):
+    n = RT_IX.get(t)
+    return "t%d" % n if n is not None else c_str(t)
+
+
+def c_id(i):
+    return "(mk_id %s)" % c_raw_id((i["t"], i["k"]))
 
 
 def c_op(o):
@@ -150,21 +187,21 @@ def c_op(o):
     if k == "delres":
         return "DelRes %s" % c_id(o["a"])
     if k == "defrel":
-        return "DefRel %s %s %s" % (c_id(o["a"]), c_str(o["ty"]), c_id(o["b"]))
+        return "DefRel %s %s %s" % (c_id(o["a"]), c_ty(o["ty"]), c_id(o["b"]))
     if k == "defmany":
-        return "DefMany %s %s %s" % (c_id(o["a"]), c_str(o["ty"]), clist([c_id(b) for b in o.get("bs") or []]))
+        return "DefMany %s %s %s" % (c_id(o["a"]), c_ty(o["ty"]), clist([c_id(b) for b in o.get("bs") or []]))
     if k == "delrel":
-        return "DelRel %s %s %s" % (c_id(o["a"]), c_str(o["ty"]), c_id(o["b"]))
+        return "DelRel %s %s %s" % (c_id(o["a"]), c_ty(o["ty"]), c_id(o["b"]))
     return {"begin": "Begin", "commit": "Commit", "abort": "Abort"}[k]
 
 
 def c_view(res, rels):
     return cpair(clist([c_raw_id(r) for r in res or []]),
-                 clist([cpair(c_raw_id(r[0:2]), c_str(r[2]), c_raw_id(r[3:5])) for r in rels or []]))
+                 clist(["rr %s %s %s" % (c_raw_id(r[0:2]), c_ty(r[2]), c_raw_id(r[3:5])) for r in rels or []]))
 
 
 def c_q(q):
-    return cpair(ERR[q["e"]], clist([c_raw_id(r) for r in q["r"] or []]))
+    return "qq %s %s" % (ERR[q["e"]], clist([c_raw_id(r) for r in q["r"] or []]))
 
 
 def harness_violation(case, r):
@@ -280,7 +317,7 @@ def neighbours(case, rng):
 
 def model_dump(case, r):
     t = to_coq(case, r)
-    return coq_print(PID, COQ_IMPORTS, "Eval vm_compute in model_dump (%s)." % t)[-8000:]
+    return coq_print(PID, COQ_IMPORTS, COQ_EXTRA + "\nEval vm_compute in model_dump (%s)." % t)[-8000:]
 
 
 READY = False
